@@ -51,3 +51,7 @@ Ltac shift :=
   repeat first
     [ rewrite sub_S | rewrite from_S | rewrite idx_S | rewrite u16at_S | rewrite u32at_S | rewrite u64at_S
     | rewrite idx_0 | rewrite u16at_0 | rewrite u32at_0 | rewrite u64at_0 | rewrite from_0 ].
+
+Ltac consify0 := cbn [app be16 be32 be64].
+Ltac nums := rewrite ?b2n_n2b_small, ?be_val_be16, ?be_val_be32, ?len_nat by lia.
+Ltac step := cbn [Nat.add]; shift; cbn [bind]; nums.
